@@ -110,7 +110,7 @@ def cases() -> Any:
 
 def parts(tier: str) -> List[Part]:
     if tier == "thorough":
-        return [Part("signatures", "given", shards=16, examples=6000, strategy=cases, soft_deadline_s=1500)]
+        return [Part("signatures", "given", shards=16, examples=15000, strategy=cases, soft_deadline_s=3000)]
     return [Part("signatures", "given", shards=8, examples=1000, strategy=cases, soft_deadline_s=120)]
 
 
